@@ -127,3 +127,16 @@ PROPS["C04"] = {
         "the AWS SDK is pinned offline by environment (static credentials, IMDS disabled, one attempt)",
     ],
 }
+
+PROPS["C05"] = {
+    "pkg": "c05", "level": "exploration",
+    "jobs": {
+        "quick": [{"name": "datagram", "run": "^TestDatagramLinesIndependent$", "checks": 4000, "shards": 12}],
+        "thorough": [{"name": "datagram", "run": "^TestDatagramLinesIndependent$", "checks": 640000, "shards": 16, "timeout": 1700}],
+    },
+    "assumptions": [
+        "an empty line between two newlines counts as a rejected line (it is lexed and rejected); the empty remainder after a trailing newline is not a line",
+        "an event without d: gets the wall-clock second of parsing: compared with a tolerance of 5 s",
+        "equal-timestamp gauge lines in one datagram: the later line must win (stated by the property)",
+    ],
+}
